@@ -272,12 +272,18 @@ impl Expression for Op {
 
             And => {
                 if lhs_def.is_null() || lhs_value == Some(Value::Boolean(false)) {
-                    // lhs is always "false"
-                    TypeDef::boolean()
+                    // lhs is always "false" (it was still evaluated: keep its fallibility)
+                    lhs_def.with_kind(K::boolean())
                 } else if lhs_value == Some(Value::Boolean(true)) {
-                    // lhs is always "true"
-                    // keep the fallibility of RHS, but change it to a boolean
-                    self.rhs.apply_type_info(&mut state).with_kind(K::boolean())
+                    // lhs is always "true": the rhs is always evaluated and has to be a boolean
+                    // or null, anything else is a runtime error
+                    lhs_def
+                        .union(
+                            self.rhs
+                                .apply_type_info(&mut state)
+                                .fallible_unless(K::null().or_boolean()),
+                        )
+                        .with_kind(K::boolean())
                 } else {
                     // unknown if lhs is true or false
                     lhs_def
